@@ -1623,7 +1623,15 @@ private:
     }
     else
     {
-      _peerIndex.erase(pkey);
+      // Only un-map the peer if the index entry belongs to THIS session. A
+      // connectViaListener() session to a peer that already had a session
+      // never owned the entry; erasing it would redirect the peer's next
+      // datagram to a brand-new session although the mapped one is still open.
+      auto pit = _peerIndex.find(pkey);
+      if (pit != _peerIndex.end() && pit->second == sid)
+      {
+        _peerIndex.erase(pit);
+      }
     }
 
     _atomicStats.closed++;
